@@ -25,9 +25,12 @@ def list_scenarios(exe):
 
 def _explore(arg):
     """Explore a chunk of scenarios in one harness process (one JSON line per scenario)."""
-    exe, chunk, bound, budget, dpoints, horizon = arg
+    exe, chunk, bound, budget, dpoints, horizon = arg[:6]
+    por = arg[6] if len(arg) > 6 else 0
     out = []
     cmd = [exe, "--scenarios", ",".join(str(x) for x in chunk), "--bound", str(bound), "--dpoints", str(dpoints), "--horizon", str(horizon)]
+    if por:
+        cmd += ["--sleep", str(por)]
     if budget:
         cmd += ["--budget", str(budget)]
     try:
@@ -61,19 +64,42 @@ def replay_schedule(exe, scenario, schedule, bound, dpoints=1, horizon=20000, co
 
 
 def explore_all(rep, harness, scenarios, bound, budget_per_scenario=None, dpoints=1, deadline=None, horizon=20000, classify=None, jobs=None, chunk=64, exe=None,
-                extra_replay=None):
-    """scenarios: list of scenario indices. Adds coverage to rep; records violations (replayed twice first)."""
+                extra_replay=None, por=2, por_budget=None):
+    """scenarios: list of scenario indices. Adds coverage to rep; records violations (replayed twice first).
+    Phase 1 (por != 0): every scenario without a preemption bound under partial-order reduction (DPOR + sleep sets; sleep sets alone
+    when the harness registers a step invariant) for por_budget seconds; a scenario that completes is covered for ALL interleavings.
+    Phase 2: the scenarios that did not complete are explored with the classic preemption-bounded search."""
     exe = exe or build_harness(harness)
     descs = dict(list_scenarios(exe))
     scenarios = list(scenarios)
+    if por and dpoints == 1:
+        pb = por_budget or max(3, min(10, (budget_per_scenario or 30) / 3.0))
+        rest = _explore_phase(rep, harness, exe, scenarios, bound, pb, dpoints, deadline, horizon, classify, jobs, chunk, extra_replay, por)
+        if not rest:
+            return descs
+        scenarios = rest
+    _explore_phase(rep, harness, exe, scenarios, bound, budget_per_scenario, dpoints, deadline, horizon, classify, jobs, chunk, extra_replay, 0)
+    return descs
+
+
+def _explore_phase(rep, harness, exe, scenarios, bound, budget_per_scenario, dpoints, deadline, horizon, classify, jobs, chunk, extra_replay, por):
     csz = max(1, min(chunk, (len(scenarios) + 4 * NCPU - 1) // (4 * NCPU)))
-    args = [(exe, scenarios[i:i + csz], bound, budget_per_scenario, dpoints, horizon) for i in range(0, len(scenarios), csz)]
+    args = [(exe, scenarios[i:i + csz], bound, budget_per_scenario, dpoints, horizon, por) for i in range(0, len(scenarios), csz)]
     nviol = 0
+    rest = []
     results = (res for group in pmap_unordered(_explore, args, jobs=jobs) for res in group)
     for res in results:
         if "error" in res:
             rep.error("%s scenario %s: %s" % (harness, res.get("scenario"), res["error"]))
             continue
+        if por:
+            rep.add("por_executions", res["executions"])
+            rep.add("por_sleep_set_blocked", res.get("sleep_blocked", 0))
+            if res["capped"] and not res.get("violation"):
+                # not complete without a bound within the budget: falls back to the preemption-bounded search
+                rep.add("por_incomplete")
+                rest.append(res["scenario"])
+                continue
         rep.add("scenarios")
         rep.add("evaluations", res["executions"])
         rep.add("traces_validated_against_impl", res["executions"])
@@ -83,12 +109,12 @@ def explore_all(rep, harness, scenarios, bound, budget_per_scenario=None, dpoint
         if res["distinct_outcomes"] >= 2:
             rep.add("scenarios_with_several_outcomes")
         bc = res["bound_completed"]
-        key = "scenarios_completed_bound_%d" % bc
+        key = "scenarios_completed_bound_%d" % bc if bc < 1000000 else "scenarios_completed_all_interleavings"
         rep.add(key)
         if res["capped"]:
             rep.capped("%s scenario %d (%s) capped after %d executions at bound %d" % (harness, res["scenario"], res["desc"], res["executions"], bc + 1))
         if res["samples"]:
-            rep.sample({"harness": harness, "scenario": res["desc"], "bound": bc, "schedules": res["executions"], "outcomes": res["samples"][:3]}, cap=8)
+            rep.sample({"harness": harness, "scenario": res["desc"], "bound": bc if bc < 1000000 else "none (all interleavings, partial-order reduced)", "schedules": res["executions"], "outcomes": res["samples"][:3]}, cap=8)
         v = res.get("violation")
         if v:
             if classify:
@@ -111,7 +137,7 @@ def explore_all(rep, harness, scenarios, bound, budget_per_scenario=None, dpoint
         if deadline is not None and deadline.expired():
             rep.capped("deadline")
             break
-    return descs
+    return rest
 
 
 def replay_vs(obj):
